@@ -7,7 +7,7 @@ CONSTANTS
   Spices = {"frag", "glue", "look"}
   Deviations = {}
   KnownDevs = {"BlankCommentPadded", "KeywordSwallowsComment"}
-  EmitEvery = 40
+  EmitEvery = 41
   EmitPhase = 0
 INIT PlaceInit
 NEXT PlaceNext
